@@ -31,6 +31,7 @@ NoDone == [has |-> FALSE, ok |-> FALSE, val |-> UnitRV, reps |-> <<>>]
 InitSt == [stack |-> <<>>, cur |-> NoCur, made |-> {}, reps |-> <<>>, phase |-> "none", runbad |-> TRUE,
            refev |-> <<>>, pos |-> 0, diverged |-> FALSE, refok |-> FALSE,
            ref1 |-> [has |-> FALSE, mj |-> "", mq |-> ""], refdone |-> NoDone, rootexit |-> [ok |-> FALSE, val |-> UnitRV, ids |-> <<>>],
+           fnf |-> {}, ncall |-> 0,
            vcount |-> [p \in Props |-> 0], viol |-> <<>>, nruns |-> 0, nev |-> 0, nrep |-> 0, nbrk |-> 0, ncmp |-> 0, nperm |-> 0, nmsg |-> 0,
            ncheck |-> [p \in Props |-> 0]]
 
@@ -50,7 +51,7 @@ StartRun(s, e) ==
                 allc |-> (e.dflt = "c" /\ AllOnes(e.script) /\ e.etype = "rec"), isref |-> isref,
                 cmp |-> (~isref /\ e.etype = "rec" /\ ~e.inp.perm), perm |-> (~isref /\ e.inp.perm /\ e.etype = "rec"),
                 deep |-> e.deep, src |-> e.src]
-    IN [s EXCEPT !.stack = <<>>, !.cur = cur, !.made = {}, !.reps = <<>>, !.phase = "idle", !.runbad = e.deep,      \* deep nests are not spelled out in the trace: only totality is judged
+    IN [s EXCEPT !.stack = <<>>, !.cur = cur, !.made = {}, !.reps = <<>>, !.fnf = {}, !.phase = "idle", !.runbad = e.deep,      \* deep nests are not spelled out in the trace: only totality is judged
                  !.refev = IF isref THEN <<>> ELSE @, !.pos = 0, !.diverged = FALSE,
                  !.refok = IF isref THEN TRUE ELSE @,
                  !.ref1 = IF isref THEN [has |-> FALSE, mj |-> "", mq |-> ""] ELSE @,
@@ -126,7 +127,7 @@ OnEnter(s, e) ==
             IN IF F.brk \/ F.ph \in {"fin"} THEN Flag(s, {"C03"}, "a child is examined after the error type answered stop (or after a structural failure)")
                ELSE IF isSkipped THEN Flag(s, {"C08"}, "a skipped field reads the payload")
                ELSE IF isField THEN Flag(s, {"C07", "C09"}, "a field is fed from a member that does not carry its effective key")
-               ELSE IF otherVariant THEN Flag(s, {"C10"}, "a field of a variant the tag does not name is read")
+               ELSE IF otherVariant \/ (N.c = "enum" /\ F.ph = "bad") THEN Flag(s, {"C10"}, "a field of a variant the tag does not name is read")
                ELSE Flag(s, {"C02", "C06"}, "a child is examined that the container has no obligation for (twice, or out of range)")
 
 OnErr(s, e) ==
@@ -160,7 +161,7 @@ OnErr(s, e) ==
             ELSE IF e.det.k = "unknownkey" THEN Flag(s1, {"C09"}, "a key is reported unknown although it is known, not denied, or already reported")
             ELSE IF F.ph = "bad" THEN Flag(s1, {"C04"} \cup tagprops \cup scalarprops \cup (IF N.c \in {"arr", "tup"} THEN {"C06"} ELSE {}),
                                            "the report made for a faulty value is of the wrong kind")
-            ELSE Flag(s1, {"C02", "C04"}, "a report is made that no fault of the payload explains")
+            ELSE Flag(s1, {"C02", "C04"} \cup (IF N.c \in {"enum", "uenum"} THEN {"C10"} ELSE {}), "a report is made that no fault of the payload explains")
 
 OnMrg(s, e) ==
     IF s.phase # "running" \/ Len(s.stack) = 0 THEN Flag(s, {"CONF"}, "merge outside a running call")
@@ -168,16 +169,68 @@ OnMrg(s, e) ==
     LET F == Top(s.stack)
         s1 == [s EXCEPT !.nbrk = IF e.ans = "b" THEN @ + 1 ELSE @]
     IN IF F.ph = "jbad" THEN s1
+       ELSE IF F.ph \in {"fnm1", "fnm2", "fnmA", "fnm0"} THEN
+            \* the error of a user function on its way into the error type
+            LET c == CHOOSE x \in Candidates(s.stack, s.cur) : x.e = "mrg" /\ x.ans = e.ans
+                isrep == F.ph # "fnm2"                                   \* this merge turns the function's error into a report
+                s2 == IF isrep THEN [s1 EXCEPT !.made = @ \cup {F.fnp.id}, !.reps = Append(@, FnDesc(F.fnp.f, e.loc)), !.nrep = @ + 1] ELSE s1
+                locprops == CASE F.fnp.k = "missing" -> {"C08", "C04"} [] F.fnp.k = "deny" -> {"C09", "C04"} [] OTHER -> {"C11", "C04"}
+            IN IF ~SameBag(e.other, c.ids) THEN Flag(s1, {"C11", "C01"}, "the error handed over is not the error the user function returned")
+               ELSE IF e.ety # c.ety THEN Flag(s1, {"C11"}, "a conversion error is merged under the wrong error type (field-level vs container)")
+               ELSE IF e.loc # c.loc THEN Flag(s1, locprops, "a user function's error is handed over at the wrong location")
+               ELSE IF isrep /\ F.fnp.id \in s.made THEN Flag(s1, {"C01", "C11"}, "a user function's error is reported twice")
+               ELSE Seen([s2 EXCEPT !.stack = AfterFnMrg(s.stack, e.ans)], {"C11", "C04", "C01", "C03"})
        ELSE IF F.ph # "merge" THEN
             IF F.brk \/ F.ph = "fin" THEN Flag(s1, {"C03"}, "a hand-over happens although nothing was returned to hand over after the stop")
             ELSE Flag(s1, {"C01", "C11"}, "an error is handed over that no child returned")
        ELSE IF ~SameBag(e.other, F.kidids) THEN Flag(s1, {"C01"}, "the error handed over is not the error the child returned")
        ELSE IF e.loc # F.kidloc THEN Flag(s1, {"C04"}, "the hand-over location is not the child's own position")
-       ELSE Seen([s1 EXCEPT !.stack = AfterMrg(s.stack, e.ans)], {"C04", "C01", "C03"})
+       ELSE IF e.ety # F.ety THEN Flag(s1, {"C11"}, "a child's error is merged under another error type than the container's")
+       ELSE Seen([s1 EXCEPT !.stack = AfterMrg(s.stack, e.ans)], {"C04", "C01", "C03"} \cup (IF F.kidety # F.ety THEN {"C11"} ELSE {}))
+
+\* the finished value handed to `validate` / the field value handed to `map`
+BuiltAgrees(F, v) == ValueAgrees(F, v)
+
+OnCall(s, e) ==
+    IF s.phase # "running" \/ Len(s.stack) = 0 THEN Flag(s, {"CONF"}, "user function called outside a running call")
+    ELSE
+    LET F == Top(s.stack)
+        N == Nodes[F.n]
+        cands == {c \in Candidates(s.stack, s.cur) : c.e = "call" /\ c.f = e.f}
+        argsok(c) == CASE c.argk = "exact"    -> e.args = c.args
+                       [] c.argk = "map"      -> Len(e.args) = 1 /\ e.args[1] \in UnmappedFieldValue(F, N, c.fi)
+                       [] c.argk = "validate" -> Len(e.args) = 2 /\ BuiltAgrees(F, e.args[1]) /\ e.args[2] = LocRV(F.loc)
+        exact == {c \in cands : argsok(c)}
+        s1 == [s EXCEPT !.ncall = @ + 1]
+        kprops(c) == CASE c.k = "missing" -> {"C08"} [] c.k = "deny" -> {"C09"} [] OTHER -> {"C11"}
+    IN IF exact # {} THEN
+            LET c == CHOOSE x \in exact : \A y \in exact : ObLeq(x.ob, y.ob) IN
+            Seen([s1 EXCEPT !.stack = AfterCall(s.stack, c)], kprops(c) \cup {"C11"})
+       ELSE IF cands # {} THEN
+            LET c == CHOOSE x \in cands : TRUE IN
+            Flag(s1, kprops(c) \cup (IF c.argk = "validate" \/ c.k \in {"missing", "deny"} THEN {"C04"} ELSE {}),
+                 "a user function does not receive the value (key, accepted list, location) it must be called with")
+       ELSE IF F.brk \/ F.ph = "fin" THEN Flag(s1, {"C03", "C11"}, "a user function is called after the error type answered stop or after a failure")
+       ELSE \* the function is not due now: twice, on a bad value, before its turn, for a present / known key ...
+            LET fs == FieldsOfNode(N, F.vi)
+                ismiss == \E fi \in 1..Len(fs) : fs[fi].missfn = e.f
+                isdeny == N.denyfn = e.f
+            IN Flag(s1, IF ismiss THEN {"C08"} ELSE IF isdeny THEN {"C09"} ELSE {"C11"},
+                    "a user function is called when it must not be (not exactly once, on a failed value, or for a key it is not about)")
+
+OnRet(s, e) ==
+    IF s.phase # "running" \/ Len(s.stack) = 0 THEN Flag(s, {"CONF"}, "user function returns outside a running call")
+    ELSE
+    LET F == Top(s.stack) IN
+    IF F.ph # "fncall" \/ F.fnp.f # e.f THEN Flag(s, {"CONF"}, "return of a user function that was not called")
+    ELSE IF ~(\E c \in Candidates(s.stack, s.cur) : c.e = "ret" /\ c.ok = e.ok) THEN Flag(s, {"CONF"}, "a user function of the catalogue returns what its kind cannot return")
+    ELSE [s EXCEPT !.stack = AfterRet(s.stack, e.ok, e.val, e.id),
+                   !.fnf = IF ~e.ok /\ CanFail(F.fnp.k) THEN @ \cup {[f |-> e.f, loc |-> IF F.fnp.k = "try" THEN F.fnp.loc ELSE F.loc]} ELSE @]
 
 SetAsSeq(S) == LET RECURSIVE f(_) f(T) == IF T = {} THEN <<>> ELSE LET x == CHOOSE y \in T : TRUE IN <<x>> \o f(T \ {x}) IN f(S)
 
-ExitProps(N) == CASE N.c = "scalar" -> {"C05"} [] N.c = "struct" -> {"C07", "C08"} [] N.c \in {"enum", "uenum"} -> {"C10", "C07", "C08"}
+ExitProps(N) == CASE N.c = "scalar" -> {"C05"} [] N.c = "struct" -> {"C07", "C08", "C11"} [] N.c \in {"enum", "uenum"} -> {"C10", "C07", "C08", "C11"}
+                  [] N.c = "cfrom" -> {"C11"}
                   [] N.c = "jvalue" -> {"C13"} [] OTHER -> {"C06"}
 
 \* losing or duplicating a report in a keep-going run also breaks "the final error holds exactly one report per fault"
@@ -203,6 +256,7 @@ OnExit(s, e) ==
             ELSE IF \E c \in cands : c.ok THEN
                  IF ValueAgrees(F, e.val) THEN Seen(s1, {"C01", "C06"} \cup ExitProps(N))
                  ELSE Flag(s, ExitProps(N), "the value returned is not the one the payload prescribes")
+            ELSE IF \E c \in Candidates(s.stack, s.cur) : c.e = "call" THEN Flag(s, {"C11"}, "Ok is returned without running the map / validate function that is due")
             ELSE IF F.ph = "bad" THEN Flag(s, ExitProps(N) \cup {"C04"}, "Ok is returned for a value the target cannot accept, without any report")
             ELSE Flag(s, {"C02", "C06"}, "Ok is returned before every element / member / field was examined")
        ELSE \* error exit
@@ -234,7 +288,7 @@ OnDone(s, e) ==
     ELSE IF ~e.ok /\ ~SameBag(e.ids, SetAsSeq(s.made)) THEN Flag(s, {"C01"}, "the final error is not made of exactly the reports of the call")
     ELSE
     LET s1 == [s EXCEPT !.phase = "done"]
-        faults == Faults(s.cur.ty, s.cur.val, <<>>, s.cur.pk)
+        faults == Faults(s.cur.ty, s.cur.val, <<>>, s.cur.pk, s.fnf)
         s2 == IF s.cur.allc /\ ~s.cur.deep
               THEN (IF SameBag(s.reps, faults) THEN Seen(s1, {"C02", "C08", "C09", "C10"})
                     ELSE Flag(s1, {"C02"}, "the keep-going run does not report exactly the independent faults of the payload"))
@@ -250,12 +304,14 @@ OnDone(s, e) ==
 
 Step(s, e) ==
     CASE e.e \in {"reset", "run"} -> StartRun(s, e)
-      [] e.e = "panic" -> IF s.runbad /\ ~s.cur.deep THEN s ELSE Flag(s, {"C12"}, "deserialize panicked")
+      [] e.e = "panic" -> Flag(s, {"C12"}, "deserialize panicked")      \* a panic is a fact, whatever happened before in the run
       [] s.runbad -> s
       [] e.e = "enter" -> (IF s.cur.etype = "rec" THEN OnEnter(PrefixStep(s, e), e) ELSE s)
       [] e.e = "err"   -> (LET p == PrefixStep(s, e) IN IF p.runbad THEN p ELSE OnErr(p, e))
       [] e.e = "mrg"   -> (LET p == PrefixStep(s, e) IN IF p.runbad THEN p ELSE OnMrg(p, e))
       [] e.e = "exit"  -> (IF s.cur.etype = "rec" THEN (LET p == PrefixStep(s, e) IN IF p.runbad THEN p ELSE OnExit(p, e)) ELSE s)
+      [] e.e = "call"  -> (IF s.cur.etype = "rec" THEN (LET p == PrefixStep(s, e) IN IF p.runbad THEN p ELSE OnCall(p, e)) ELSE s)
+      [] e.e = "ret"   -> (IF s.cur.etype = "rec" THEN (LET p == PrefixStep(s, e) IN IF p.runbad THEN p ELSE OnRet(p, e)) ELSE s)
       [] e.e = "done"  -> OnDone(s, e)
       [] OTHER -> s
 
@@ -268,6 +324,6 @@ TraceSpec == TraceInit /\ [][TraceNext]_tvars
 Final == l = Len(Rec) + 1
 Report == Final => PrintT(<<"RESULT", ToJson([lines |-> Len(Rec), vcount |-> st.vcount, viol |-> st.viol, runs |-> st.nruns,
                                                reports |-> st.nrep, breaks |-> st.nbrk, compared |-> st.ncmp, perms |-> st.nperm,
-                                               msgs |-> st.nmsg, checked |-> st.ncheck])>>)
+                                               msgs |-> st.nmsg, calls |-> st.ncall, checked |-> st.ncheck])>>)
 TraceAccepted == TLCGet("stats").diameter = Len(Rec) + 1
 =============================================================================
